@@ -98,6 +98,7 @@ def run_form(
     orc=None,
     poison=None,
     wscale=1.0,
+    data_fixed=None,
 ):
     """Call every kernel of `cform` and compare with the oracle.  Returns (observations,
     descriptor, oracle)."""
@@ -125,6 +126,13 @@ def run_form(
                 data = H.make_data(
                     rng, ce, orc.original_coefficients, orc.constants, interior, complex_data and cmode, gk
                 )
+                if data_fixed:  # special-value data class, e.g. {"w": 0.0, "c": 2.0}: exact on both sides
+                    if data_fixed.get("w") is not None:
+                        for cf in data["w"]:
+                            data["w"][cf] = {s_: np.full_like(v_, data_fixed["w"]) for s_, v_ in data["w"][cf].items()}
+                    if data_fixed.get("c") is not None:
+                        for cc in data["c"]:
+                            data["c"][cc] = np.full_like(data["c"][cc], data_fixed["c"])
                 if wscale != 1.0:
                     for cf in data["w"]:
                         data["w"][cf] = {s_: v_ * wscale for s_, v_ in data["w"][cf].items()}
